@@ -4,20 +4,23 @@ From GV Require Import C18.Lemmas.
 Open Scope Z_scope.
 
 (* After every history of collection operations (append / remove a dataset, create / remove a subset group, save and
-   restore the session) and viewer operations (add_data, remove_data, add_subset of a current subset of a shown
-   dataset), with `given` = the datasets handed to the viewer and not taken away since (by remove_data or by removal
-   from the collection):  the artist list and state.layers are the same duplicate-free list; every given dataset is in
-   the collection; the dataset layers are exactly the given datasets and the subset layers are exactly the members of
-   data.subsets of the given datasets (one layer each, nothing else); where dc.remove detaches grouped subsets
-   (fx = true, the C06 repair) every subset layer belongs to a dataset in the collection and to a live group. *)
+   restore the session) and viewer operations (add_data, remove_data, add_subset of any current subset of a dataset in
+   the collection - also when the viewer does not show that dataset -, remove_layer of a dataset's own layer), with
+   `given` = the datasets handed to the viewer with add_data and not taken away since (by remove_data, remove_layer or
+   removal from the collection):  the artist list and state.layers are the same duplicate-free list; the dataset layers
+   are exactly the given datasets, all in the collection; every subset layer is a member of data.subsets of a dataset
+   that is in the collection (nothing remains for removed datasets, subsets or groups, also for subsets handed over
+   alone); every current subset of a given dataset has its layer (so: exactly one); where dc.remove detaches grouped
+   subsets (fx = true, the C06 repair) every subset layer belongs to a live group. *)
 Theorem viewer_inv_reachable : forall (fx : bool) (ops : list op),
   let st := fst (run_v ops (init_v fx) []) in
   let given := snd (run_v ops (init_v fx) []) in
   sls st = arts st /\ NoDup (arts st) /\ NoDup given /\
   (forall d, In d given -> In d (dc st)) /\
   (forall d, In (LData d) (arts st) <-> In d given) /\
-  (forall s d g, In (LSub s d g) (arts st) <-> In d given /\ exists lv, In (mkSub s d g lv) (subs st)) /\
-  (fx = true -> forall s d g, In (LSub s d g) (arts st) -> In d (dc st) /\ In g (groups st)).
+  (forall s d g, In (LSub s d g) (arts st) -> In d (dc st) /\ exists lv, In (mkSub s d g lv) (subs st)) /\
+  (forall s d g lv, In d given -> In (mkSub s d g lv) (subs st) -> In (LSub s d g) (arts st)) /\
+  (fx = true -> forall s d g, In (LSub s d g) (arts st) -> In g (groups st)).
 Proof. exact Lemmas.viewer_inv_reachable. Qed.
 Print Assumptions viewer_inv_reachable.
 
